@@ -146,4 +146,125 @@ theorem c02_model_checks {V : Type} [BEq V] [ReflBEq V] (F : Facts) (hwf : WF F 
             exact absurd (hdoc _ hdc) hc
         simp [observe, checkObs, hnd]
 
+/-! ### non-vacuity: concrete inputs meet every hypothesis; counter-examples without them -/
+
+/-- toy values: numbers, and a glom `T` object stored as *data* inside the target -/
+inductive TV where
+  | n (k : Int)
+  | tobj
+  deriving DecidableEq, Repr
+
+instance : ReflBEq TV := ⟨by intro a; cases a <;> simp [BEq.beq]⟩
+
+/-- toy primitives: `cur[1]`, `cur[2]` are the object `tobj`; every callable is the
+    identity function of one argument; `//` and `+` on numbers; `-x`.
+    `reval` is the second `arg_val` pass of `Call.glomit`. -/
+def toyPrim (reval : TV → TV → TV) : Prim TV :=
+  { none := .n 0
+    getattr := fun _ _ => .error ⟨"AttributeError"⟩
+    getitem := fun _ a => match a with
+      | .n 1 => .ok .tobj | .n 2 => .ok .tobj | _ => .error ⟨"KeyError"⟩
+    call := fun _ args _ => match args with | [a] => .ok a | _ => .error ⟨"TypeError"⟩
+    bin := fun b x y => match b, x, y with
+      | .floordiv, .n a, .n c =>
+        if c = 0 then .error ⟨"ZeroDivisionError"⟩ else .ok (.n (Int.fdiv a c))
+      | .add, .n a, .n c => .ok (.n (a + c))
+      | _, _, _ => .error ⟨"TypeError"⟩
+    un := fun _ x => match x with | .n a => .ok (.n (-a)) | _ => .error ⟨"TypeError"⟩
+    mkList := fun _ => .n 0
+    mkTuple := fun _ => .n 0
+    mkDict := fun _ => .ok (.n 0)
+    reval := reval }
+
+/-- plain data: the second `arg_val` pass returns its argument -/
+def plain : TV → TV → TV := fun _ v => v
+/-- data containing `T` objects: the second pass evaluates them against the target -/
+def leaky : TV → TV → TV := fun t v => match v with | .tobj => t | v => v
+
+example : ∀ t v, (toyPrim plain).reval t v = v := fun _ _ => rfl
+
+/-- `(T // 2) + (-T)` -/
+def exE : E TV :=
+  .texpr [("__floordiv__", .lit (.n 2)), ("__add__", .texpr [("__neg__", .lit (.n 0))])]
+
+def exO : C02.Obj TV :=
+  .tt [.root "T", .opc "#", .lit (.n 2), .opc "+", .tt [.root "T", .opc "_", .lit (.n 0)]]
+
+theorem ex_record : record genFacts (toyPrim plain).none exE = some exO := by
+  simp [exE, exO, toyPrim, record_texpr, recStep, charOf, genFacts, Generated.tRecorded,
+    arglessDunders, allSome, flatOfCells, record]
+
+/-- applied directly to 7: `7 // 2 + -7 = -4` (the nested `-T` sees the target 7, not 3) -/
+theorem ex_ref : refEval (toyPrim plain) exE (.n 7) = .ok (.n (-4)) := by
+  simp [exE, refEval_texpr, refStep, arglessDunders, meaning, meaningTable, foldSteps, pyApply,
+    toyPrim, refArg_texpr, refArg]
+
+example : refEval (toyPrim plain) exE (.n 7) ≠ .error .unsupported := by rw [ex_ref]; simp
+
+/-- hence, by `c02_replay`, so does the model on the recorded object -/
+example : tEval genFacts (toyPrim plain) exO (.n 7) = .ok (.n (-4)) := by
+  rw [c02_replay genFacts c02_facts_wf (toyPrim plain) (fun _ _ => rfl) exE exO ex_record, ex_ref]
+  rfl
+
+/-- a failing operation: `(T // 0)` is operation 0 raising ZeroDivisionError -/
+example : refEval (toyPrim plain) (.texpr [("__floordiv__", .lit (.n 0))]) (.n 7)
+    = .error (.opFail 0 (.bin .floordiv) ⟨"ZeroDivisionError"⟩) := by
+  simp [refEval_texpr, refStep, arglessDunders, meaning, meaningTable, foldSteps, pyApply,
+    toyPrim, refArg]
+
+/-! #### without `WF`: the tables of the tree before commit e2222c4 (no branch for `'#'`)
+    make `_t_eval` skip the recorded floor division without any error -/
+
+def droppedFacts : Facts :=
+  { genFacts with dispatch := genFacts.dispatch.filter (fun en => en.1 != "#") }
+
+theorem c02_wf_counterexample :
+    WF droppedFacts = false ∧
+    record droppedFacts (toyPrim plain).none (.texpr [("__floordiv__", .lit (.n 2))])
+      = some (.tt [.root "T", .opc "#", .lit (.n 2)]) ∧
+    tEval droppedFacts (toyPrim plain) (.tt [.root "T", .opc "#", .lit (.n 2)]) (.n 7)
+      = .ok (.n 7) ∧
+    refEval (toyPrim plain) (.texpr [("__floordiv__", .lit (.n 2))]) (.n 7) = .ok (.n 3) := by
+  refine ⟨by decide, ?_, ?_, ?_⟩
+  · simp [toyPrim, record_texpr, recStep, charOf, droppedFacts, genFacts, Generated.tRecorded,
+      arglessDunders, allSome, flatOfCells, record]
+  · have h : (C02.Obj.tt [.root "T", .opc "#", .lit (TV.n 2)]) =
+        .tt (.root "T" :: flatOfCells [("#", .lit (.n 2))]) := by simp [flatOfCells]
+    rw [h]
+    simp [tEval, argVal_tt_T, stepsEval, argVal, applyBranch, dispatchOf, droppedFacts, genFacts,
+      Generated.tDispatch]
+  · simp [refEval_texpr, refStep, arglessDunders, meaning, meaningTable, foldSteps, pyApply,
+      toyPrim, refArg]
+
+/-! #### without `hplain`: `T[1](T[2])` on a target whose items are `T` objects -/
+
+def dblE : E TV :=
+  .texpr [("__getitem__", .lit (.n 1)),
+          ("__call__", .cargs [.texpr [("__getitem__", .lit (.n 2))]] [])]
+
+def dblO : C02.Obj TV :=
+  .tt [.root "T", .opc "[", .lit (.n 1), .opc "(",
+       .cargs [.tt [.root "T", .opc "[", .lit (.n 2)]] []]
+
+/-- Applying the chain directly gives `target[1](target[2])`, the stored object;
+    `_t_eval` gives the *target*: `Call.glomit` evaluated the stored `T` object a
+    second time.  Real glom: `glom({'f': ident, 'a': T['b'], 'b': 5}, T['f'](T['a'])) == 5`
+    whereas `target['f'](target['a'])` is the object `T['b']`.  (Reading: the
+    property is about targets made of plain data; recorded in the harness' ASSUMPTIONS.) -/
+theorem c02_double_eval_counterexample :
+    record genFacts (toyPrim leaky).none dblE = some dblO ∧
+    refEval (toyPrim leaky) dblE (.n 7) = .ok .tobj ∧
+    tEval genFacts (toyPrim leaky) dblO (.n 7) = .ok (.n 7) := by
+  refine ⟨?_, ?_, ?_⟩
+  · simp [dblE, dblO, toyPrim, record_texpr, recStep, charOf, genFacts, Generated.tRecorded,
+      arglessDunders, allSome, flatOfCells, record]
+  · simp [dblE, refEval_texpr, refStep, arglessDunders, meaning, meaningTable, foldSteps, pyApply,
+      toyPrim, refArg_texpr, refArg, refVals, refVal1, seqAll]
+  · have h : dblO = .tt (.root "T" :: flatOfCells [("[", .lit (.n 1)),
+        ("(", .cargs [.tt (.root "T" :: flatOfCells [("[", .lit (.n 2))])] [])]) := by
+      simp [dblO, flatOfCells]
+    rw [h]
+    simp [tEval, argVal_tt_T, stepsEval, argVal, valsOf, valOfRes, asVal, seqAll, applyBranch,
+      dispatchOf, genFacts, Generated.tDispatch, Kind.ofString, kindNames, guarded, toyPrim, leaky]
+
 end Glom.Props.C02
